@@ -6,10 +6,23 @@
 #include <type_traits>
 #include "xtl/xtype_traits.hpp"
 #include "xtl/xoptional_meta.hpp"
+#include <complex>
+#include "xtl/xhalf_float.hpp"
+#include "xtl/xcomplex.hpp"
+#include "xtl/xoptional.hpp"
+#include "xtl/xmasked_value.hpp"
 
 namespace ex
 {
     template <class X_, class Y_> using same = std::is_same<X_, Y_>;
+    // round 3: representatives of the type kinds for the classification traits; trait classes with an int member `value`
+    struct k_class {};
+    enum k_enum { k_e0 };
+    struct T1 { static constexpr bool value = true; };
+    struct F1 { static constexpr bool value = false; };
+    struct I2 { static constexpr int value = 2; };
+    struct I0 { static constexpr int value = 0; };
+    template <class B, class D> using base_of = std::is_base_of<B, D>;
     template <class R, long N, long D>
     using tp = std::chrono::time_point<std::chrono::system_clock, std::chrono::duration<R, std::ratio<N, D>>>;
 }
